@@ -44,41 +44,53 @@ pub fn exec(sc: &Scenario, st: &mut Stats) -> Option<Violation> {
     let mut digest = 0u64;
     let mut compared_after_reset = false;
     let mut prev_was_reset = false;
+    let mut micro: Vec<(Input, Fault)> = vec![];
     for (i, op) in sc.ops.iter().enumerate() {
         st.op(op);
         match op {
-            Op::Feed { x, f, .. } => {
-                st.ticks += 1;
-                st.fault(*f);
-                if *f != Fault::Clean {
-                    last_fault = *f;
+            Op::Feed { .. } | Op::Gen { .. } => {
+                micro.clear();
+                match op {
+                    Op::Feed { x, f, .. } => micro.push((*x, *f)),
+                    Op::Gen { g, skip, len, fault, every, .. } => world::expand_gen(g, *skip, *len, *fault, *every, 0, |x, f, _| {
+                        micro.push((*x, f));
+                        true
+                    }),
+                    _ => {}
                 }
-                let (eo, _) = on(Side::Reference, || twin.feed(spec.mode, x));
-                let (go, used) = on(Side::Subject, || node.feed(spec.mode, x));
-                scale.push(x);
-                for b in go.bits() {
-                    digest = fnv_u64(digest, b);
-                }
-                st.comparisons += 1;
-                if resets > 0 {
-                    compared_after_reset = true;
-                    st.situation(kind, &spec.params, phase(count, spec.params.window(kind), was_reset), 1, fault_before_reset, used, (hist_before_reset.min(3) << 8) | (*f as u64));
-                }
-                if !go.same_bits(&eo) {
-                    if let Some(c) = out_rel12(&go, &eo, scale.of(kind)) {
-                        return Some(viol(
-                            "output-mismatch",
-                            kind,
-                            i,
-                            format!("component {} differs {} ticks after reset #{} (history before reset: {} ticks, last fault {})", c, count + 1, resets, hist_before_reset, fault_before_reset.name()),
-                            eo.hex(),
-                            go.hex(),
-                        ));
+                for (x, f) in micro.iter() {
+                    st.ticks += 1;
+                    st.fault(*f);
+                    if *f != Fault::Clean {
+                        last_fault = *f;
                     }
-                    st.bump("within_rel12_but_not_bit_identical");
+                    let (eo, _) = on(Side::Reference, || twin.feed(spec.mode, x));
+                    let (go, used) = on(Side::Subject, || node.feed(spec.mode, x));
+                    scale.push(x);
+                    for b in go.bits() {
+                        digest = fnv_u64(digest, b);
+                    }
+                    st.comparisons += 1;
+                    if resets > 0 {
+                        compared_after_reset = true;
+                        st.situation(kind, &spec.params, phase(count, spec.params.window(kind), was_reset), 1, fault_before_reset, used, (hist_before_reset.min(3) << 8) | (*f as u64));
+                    }
+                    if !go.same_bits(&eo) {
+                        if let Some(c) = out_rel12(&go, &eo, scale.of(kind)) {
+                            return Some(viol(
+                                "output-mismatch",
+                                kind,
+                                i,
+                                format!("component {} differs {} ticks after reset #{} (history before reset: {} ticks, last fault {})", c, count + 1, resets, hist_before_reset, fault_before_reset.name()),
+                                eo.hex(),
+                                go.hex(),
+                            ));
+                        }
+                        st.bump("within_rel12_but_not_bit_identical");
+                    }
+                    count += 1;
+                    prev_was_reset = false;
                 }
-                count += 1;
-                prev_was_reset = false;
             }
             Op::Reset { .. } => {
                 let before = (node.display(), node.period(), node.multiplier().map(f64::to_bits));
@@ -104,6 +116,21 @@ pub fn exec(sc: &Scenario, st: &mut Stats) -> Option<Violation> {
                 resets += 1;
                 prev_was_reset = true;
                 last_fault = Fault::Clean;
+            }
+            Op::Fork { .. } => {
+                // the node is replaced by its clone: what is reset later is a clone
+                node = on(Side::Subject, || node.fork());
+                st.bump("node_replaced_by_clone_before_reset");
+                prev_was_reset = false;
+            }
+            Op::RoundTrip { .. } => {
+                // the node is replaced by a serialize->deserialize copy of itself
+                let copy = on(Side::Subject, || node.save().ok().and_then(|b| node.load(&b).ok()));
+                if let Some(c) = copy {
+                    node = c;
+                    st.bump("node_replaced_by_deserialized_copy_before_reset");
+                }
+                prev_was_reset = false;
             }
             Op::Format { .. } => {
                 let d = on(Side::Subject, || (node.display(), node.debug().len()));
@@ -170,6 +197,15 @@ pub fn generate(rng: &mut Rng, tier: Tier) -> Scenario {
             6 => rng.range(0, 4 * sp + 40),
             _ => rng.range(0, (4 * sp + 40).min(60)),
         };
+        // rarely: a very long uptime before the reset (counters, cursors and running sums far from fresh)
+        if rng.chance(0.0006) && sp <= 64 {
+            let len = match tier {
+                Tier::Quick => rng.range(66_000, 90_000),
+                Tier::Thorough => rng.range(66_000, 400_000),
+            } as u64;
+            let fault = if rng.chance(0.4) { Some(*rng.pick(&world::VALUE_FAULTS)) } else { None };
+            ops.push(Op::Gen { n: 0, g: World::random_desc(rng), skip: 0, len, fault, every: if fault.is_some() { rng.range(2, 3000) as u64 } else { 0 }, reset_every: 0 });
+        }
         let mut fed = 0;
         while fed < hlen {
             buf.clear();
@@ -184,6 +220,13 @@ pub fn generate(rng: &mut Rng, tier: Tier) -> Scenario {
             if rng.chance(0.01) {
                 ops.push(Op::Format { n: 0 });
             }
+        }
+        // sometimes what gets reset is a clone, or a copy that went through serde
+        if rng.chance(0.06) {
+            ops.push(Op::Fork { src: 0, dst: 0 });
+        }
+        if rng.chance(0.06) {
+            ops.push(Op::RoundTrip { n: 0, times: 1 });
         }
         // phase 2: the reset (sometimes a storm)
         let k = if rng.chance(0.2) { rng.range(2, 3) } else { 1 };
